@@ -30,6 +30,10 @@ pub fn spec_for(seed: u64, index: u64) -> SysSpec {
     {
         let mut spec = sysgen::generate(seed, "C03", index, &gen_cfg());
         // bad states over inputs only, tied to a counter by a constraint
+        // a constraint gated by a chain of delay registers
+        if index % 11 == 7 {
+            sysgen::delayed_gate(&mut spec, index / 11);
+        }
         if index % 11 == 5 {
             sysgen::input_bad_state_constraint(&mut spec, index / 11, false);
         }
